@@ -61,6 +61,7 @@ type pktSpec struct {
 	expired          bool
 	inAlert, egAlert bool
 	traceroute       bool
+	scmpErr          bool // L4 is an SCMP error message: the slow path refuses to answer it
 	fromInside       bool // arrives over the internal / sibling link: SegID already updated
 	payload          int
 }
@@ -116,6 +117,15 @@ func scionPkt(s pktSpec) []byte {
 		scmp.SetNetworkLayerForChecksum(spkt)
 		must(gopacket.SerializeLayers(buf, opts, spkt, scmp,
 			&slayers.SCMPTraceroute{Identifier: 7, Sequence: 9}))
+		return buf.Bytes()
+	}
+	if s.scmpErr {
+		spkt.NextHdr = slayers.L4SCMP
+		scmp := &slayers.SCMP{
+			TypeCode: slayers.CreateSCMPTypeCode(slayers.SCMPTypeDestinationUnreachable, 0)}
+		scmp.SetNetworkLayerForChecksum(spkt)
+		must(gopacket.SerializeLayers(buf, opts, spkt, scmp,
+			&slayers.SCMPDestinationUnreachable{}, gopacket.Payload(make([]byte, 16))))
 		return buf.Bytes()
 	}
 	spkt.NextHdr = slayers.L4UDP
@@ -288,6 +298,20 @@ func gen(kind int, r *vgen.Rand, reuse bool, disc2, discS uint32) (int, dgram) {
 		return sibConn, dgram{bfdPkt(true, st, 98, your), sibSrc}
 	}
 	panic("kind")
+}
+
+// slowDropPkt arrives on if 1 with a bad hop field MAC (-> slow path) and carries an SCMP error
+// message, which the slow path never answers: it returns the buffer.
+func slowDropPkt() []byte {
+	return scionPkt(pktSpec{srcIA: ia111, dstIA: ia112, src: hostB, dst: hostB,
+		consDir: true, in: 1, eg: 2, pos: 1, badMAC: true, scmpErr: true})
+}
+
+// discardPkt arrives on if 1 and is cut in the middle of its path: the processor discards it.
+func discardPkt(r *vgen.Rand) []byte {
+	b := scionPkt(pktSpec{srcIA: ia111, dstIA: ia112, src: hostB, dst: hostB,
+		consDir: true, in: 1, eg: 2, pos: 1, payload: 8})
+	return b[:r.Range(36, len(b)-20)]
 }
 
 func pickExt(r *vgen.Rand, reuse bool) (int, *net.UDPAddr) {
